@@ -180,7 +180,8 @@ type robust struct {
 	r       *Run
 	seenSig map[string]int
 	w       *worker
-	local   bool // run in-process (replay)
+	local   bool   // run in-process (replay)
+	class   string // class of the case being executed (for the histograms)
 }
 
 func newRobust(r *Run) *robust {
@@ -195,7 +196,7 @@ func (rb *robust) done() {
 
 // violate reports at most 3 cases per signature and counts all of them.
 func (rb *robust) violate(clause, sig, caseLine, detail string) {
-	rb.r.Count("violation:" + clause + ":" + sig)
+	rb.r.Count("violation:" + clause + ":" + rb.class + ":" + sig)
 	rb.seenSig[clause+sig]++
 	if rb.seenSig[clause+sig] <= 3 {
 		rb.r.Violate("C01", clause, caseLine, detail)
@@ -230,6 +231,7 @@ func (rb *robust) runOnce(cfg engineCfg, src string, env map[string]*V, caseLine
 // exec runs one case on the real code, evaluates the C01 oracle, and returns the result line.
 func (rb *robust) exec(cfg engineCfg, src string, env map[string]*V, caseLine, class string) string {
 	r := rb.r
+	rb.class = class
 	budget := caseBudget(spelledCost(src, len(caseLine)-len(src)*2, maxCollection(env)))
 	limit := 50 * budget
 	hard := limit
